@@ -39,7 +39,8 @@ type c04Script struct {
 	MsgSeed uint64  `json:"msg_seed"`
 	MsgLen  int     `json:"msg_len"`
 	Zero    bool    `json:"zero,omitempty"`
-	Two     bool    `json:"two,omitempty"` // two independent hash values used alternately by one consumer
+	Two     bool    `json:"two,omitempty"`   // two independent hash values used alternately by one consumer
+	Giant   int     `json:"giant,omitempty"` // >0: one hash value fed this many bytes in 1 MiB writes, Sum taken around 2^29 bytes
 	Ops     []c04Op `json:"ops"`
 }
 
@@ -59,7 +60,7 @@ func (c04) Plan(tier string) core.Plan {
 // systematic part: every message length 0..200 split at every position into two writes
 // is too large; instead every length 0..260 written (a) in one Write, (b) byte by byte,
 // (c) through io.Copy with 1-byte reads is enumerated: 3*261 cases.
-const c04SysN = 3 * 261
+const c04SysN = 3*261 + 1 // + one stream crossing 2^29 bytes (bit length 2^32)
 
 func (c04) Meta() core.Meta {
 	return core.Meta{
@@ -70,7 +71,7 @@ func (c04) Meta() core.Meta {
 			"byte source": "stub (simulated pipe)", "oracle": "sm3ref (GB/T 32905 transcribed; anchored on A.1/A.2)"},
 		Assumptions: []string{"sm3ref is correct (anchors: GB/T 32905 A.1, A.2; the GM/T 0003.5 ZA/e values)"},
 		FaultKinds:  []string{"short-read", "stall", "eof-with-data", "peek", "double-peek", "reset-midstream", "zero-write", "prefix-spare-capacity", "two-hash-values"},
-		ProbeNames:  []string{"fill=55", "fill=56", "fill=63", "fill=0-after-data", "straddle", "len>=2blocks"},
+		ProbeNames:  []string{"fill=55", "fill=56", "fill=63", "fill=0-after-data", "straddle", "len>=2blocks", "len>=2^29"},
 		StepUnit:    "hash ops + pipe reads",
 	}
 }
@@ -86,6 +87,9 @@ func c04Chunk(r *core.Rand) int {
 }
 
 func (c04) Generate(idx int, r *core.Rand, tier string) core.Script {
+	if idx == c04SysN-1 {
+		return &c04Script{MsgSeed: 0x61a27, Giant: 1<<29 + 5}
+	}
 	if idx < c04SysN {
 		l := idx % 261
 		s := &c04Script{MsgSeed: uint64(idx) * 7919, MsgLen: l}
@@ -209,6 +213,10 @@ func (c04) Execute(sc core.Script, keep bool) *core.Result {
 		res.Steps += log.Steps()
 		res.LogLines = log.Lines
 	}()
+	if s.Giant > 0 {
+		c04Giant(s, res, log)
+		return res
+	}
 	msg := make([]byte, s.MsgLen)
 	if !s.Zero {
 		core.NewRand(s.MsgSeed).Fill(msg)
@@ -440,6 +448,9 @@ func compress(k []string) []string {
 
 func (c04) Shrinks(sc core.Script) []core.Script {
 	s := sc.(*c04Script)
+	if s.Giant > 0 {
+		return nil
+	}
 	cp := func() *c04Script {
 		raw, _ := json.Marshal(s)
 		var c c04Script
@@ -521,4 +532,52 @@ func max(a, b int) int {
 		return a
 	}
 	return b
+}
+
+// c04Giant streams a very long message (the byte and bit counters of the hash cross
+// 2^29 bytes = 2^32 bits) through one hash value and the streaming reference, comparing
+// digests shortly before and after the boundary and at the end.
+func c04Giant(s *c04Script, res *core.Result, log *core.Log) {
+	res.Nontrivial = true
+	res.Fingerprint = "giant-stream"
+	res.Probes["len>=2^29"]++
+	p, txt, _, _ := core.Catch(func() {
+		h := sm3.New()
+		st := ref.NewSM3Stream()
+		r := core.NewRand(s.MsgSeed)
+		chunk := make([]byte, 1<<20)
+		marks := []int{1<<29 - 1, 1<<29 + 5, s.Giant}
+		done := 0
+		for _, m := range marks {
+			if m > s.Giant {
+				m = s.Giant
+			}
+			for done < m {
+				n := m - done
+				if n > len(chunk) {
+					n = len(chunk)
+				}
+				r.Fill(chunk[:8]) // cheap variation per chunk; the rest keeps the previous content
+				k, err := h.Write(chunk[:n])
+				st.Write(chunk[:n])
+				if k != n || err != nil {
+					res.Violation = &core.Violation{Class: "write-n", Op: "write", Role: "Write", Param: "giant", Detail: fmt.Sprintf("Write(%d) = %d, %v after %d bytes", n, k, err, done)}
+					return
+				}
+				done += n
+			}
+			got, want := h.Sum(nil), st.Sum()
+			log.Add("giant: after %d bytes digest %s", done, core.Hex8(got))
+			if !bytes.Equal(got, want[:]) {
+				res.Violation = &core.Violation{Class: "wrong-digest", Op: "sum", Role: "Sum", Param: "stream>=2^29", Detail: fmt.Sprintf("Sum after %d bytes = %x, SM3 = %x", done, got, want)}
+				return
+			}
+		}
+	})
+	if p {
+		res.Violation = &core.Violation{Class: "panic", Op: "giant", Role: "hash", Param: "stream>=2^29", Detail: "panic: " + txt}
+	}
+	if res.Violation != nil {
+		log.Add("VIOLATION %s", res.Violation.Detail)
+	}
 }
